@@ -1183,12 +1183,11 @@ class Sum(Expression):
 
         # Special case when ranges cover
         if isinstance(expression, Probability) and not expression.parents:  # i.e., no conditions
-            children = {
-                child.get_base(): child
-                for child in expression.children
-                # FIXME what happens if same name appears with multiple different counterfactual variables?
-                #  this should actually evaluate to zero since that's impossible
-            }
+            children = {child.get_base(): child for child in expression.children}
+            if len(children) != len(expression.children):
+                # the same base variable appears in several children (different worlds or values):
+                # a range binds all of them at once, so no child can be marginalized out on its own
+                return self
             if ranges == set(children):
                 return One()
             elif ranges > set(children):
